@@ -146,7 +146,8 @@ def run(rep, props, replay=None):
             rep.violation("Dense.smooth(points=None) differs from smoothing at the original sampling points", info)
         if i % 2 == 0:
             covsubs = [(n_, s) for n_, s in subs if n_ in ("sub-range", "thinned", "right-part", "interior")]
-            for vn, kw in [("LP", dict(method_smoothing="LP", bandwidth=bw)), ("PS", dict(method_smoothing="PS", n_segments=4, penalty=(1.0, 1.0)))]:
+            for vn, kw in [("LP", dict(method_smoothing="LP", bandwidth=bw)), ("PS", dict(method_smoothing="PS", n_segments=4, penalty=(1.0, 1.0))),
+                           ("PS-default", dict(method_smoothing="PS")), ("LP-default", dict(method_smoothing="LP"))]:
                 def fcov(S, kw=kw):
                     c = np.asarray(d.covariance(points=pts(S), **kw).values)[0]
                     return c                      # (len S, len S): compare the sub-block
